@@ -56,7 +56,7 @@ CHECKS = {
              "inherited tri-state; ConversionUnion / catch_value_error outcomes incl. an escaping ValueError). TLC "
              "checks the laws RejectsAsSource, IdentityBypasses, DynamicIsLocal, ContainersReach, SerializersInherited "
              "over every environment (registered sequences of <= 2 deserializers, serializer x form x inherited, "
-             "registry vs default_conversion parameter, field conversion) x 10 root types x 8 / 7 dynamic "
+             "registry vs default_conversion parameter, field conversion; three class levels K4 < K2 < K1) x 11 root types x 8 / 7 dynamic "
              "conversions; four deviations must break their law. Every configuration is replayed on fresh classes: "
              "deserialize outcome (value / rejection / escaping ValueError) per datum, serialize output per value, "
              "support, and both JSON schemas against the schema of the resolved plain type.",
@@ -126,7 +126,9 @@ CHECKS = {
              "for the deserialization and serialization models is replayed under each option vector (no_copy x "
              "override_dataclass_constructors x function/precomputed method x deserialization pass_through; check_type, "
              "no_copy, serialization_method, PassThroughOptions flag vectors completed by serialization_default) and "
-             "compared with the prediction; container identity is observed for the copy rules and inputs are fingerprinted.",
+             "compared with the prediction; container identity is observed for the copy rules and inputs are fingerprinted. "
+             "Deserialization pass_through is also replayed with data already holding instances of the passed-through "
+             "classes (injected wherever the predicted image is an instance: through unions, lists, mapping values).",
         design_ref="7 C08", technique="TLA+ models of C01/C04 as option-independent oracle, replay under every option vector",
         note="Trusted: TLC, the reading of the docs encoded in spec/Serialization.tla and spec/DataModel.tla, the bridge building real classes/values. Values are typed images of the conforming data of the bounded deserialization universe." + " Identity observed on mutable containers only; Any positions are exempt from the no-sharing rule."),
     "C09": dict(
@@ -151,7 +153,9 @@ CHECKS = {
              "datum x outcome vector within bounds, and termination as a temporal property (call log hidden by a VIEW). "
              "Every enumerated case, plus TLC-simulated cases with up to 4 fields / 4 validators, is replayed on a "
              "generated class whose validators log their invocation; recorded executions of randomly generated classes "
-             "(inheritance, method/property/InitVar dependencies) are validated by a TLC trace spec.",
+             "(inheritance, method/property/InitVar dependencies) are validated by a TLC trace spec. Validators not bound "
+             "to the class are a phase of the machine, attached by argument, Annotated, field metadata or on the "
+             "back-reference of a recursive class (extmode).",
         design_ref="7 C10", technique="TLA+ state machine + refinement invariants + liveness, spec->code replay, code->spec trace validation",
         note="Validators' pass/fail outcomes are inputs of the case. Dependency discovery is bound through generated "
              "source shapes only."),
@@ -163,7 +167,9 @@ CHECKS = {
              "TLC checks the set laws (TypeOK, DeserLaw = present keys + default_as_set + init=False, ExcludeUnsetSound) "
              "over every operation sequence within the bound; every reachable history (each prefix is a history) and "
              "long simulated ones are replayed on real classes and fields_set(obj) plus the keys of serialize with "
-             "exclude_unset True/False (typed and untyped) are compared after the last step.",
+             "exclude_unset True/False (typed and untyped) are compared after the last step. The instance replace() was "
+             "called on is part of the state (orig): the action property OrigFrozen says nothing done later changes it, the "
+             "deviation ShareOnReplace is a negative check, and the original's set / serialization are replayed too.",
         design_ref="7 C15", technique="TLA+ state machine over operation histories, TLC exhaustive + simulation, step-wise replay",
         note="Values are small ints, aliases are names. The undecorated-subclass corner is a sandwich (provided <= set <= stored fields)."),
     "C16": dict(
